@@ -170,9 +170,10 @@ func runE2E(p *pki, mock *sdsMock, groups []*group, ups []tcase, out string, par
 		listeners = append(listeners, testutil.NewListener(fmt.Sprintf("u%d", j), addrs[len(groups)+j], []v2.FilterChain{tcpProxyChain(cname)}))
 	}
 	cfg := testutil.NewMOSNConfig(listeners, v2.ClusterManagerConfig{Clusters: clusters})
+	cfg.DisableUpgrade = true // no reconfigure socket: another MOSN on this machine must not look like a hot upgrade
 	cfg.Servers[0].DefaultLogLevel = "ERROR"
-	cfg.Servers[0].DefaultLogPath = os.TempDir() + fmt.Sprintf("/c13-mosn-%d.log", os.Getpid())
-	defer os.Remove(cfg.Servers[0].DefaultLogPath)
+	wd, _ := os.Getwd() // the check runs the driver inside its scratch directory, removed afterwards
+	cfg.Servers[0].DefaultLogPath = fmt.Sprintf("%s/c13-mosn-%d.log", wd, os.Getpid())
 	m := tmosn.NewMosn(cfg)
 	go m.Start()
 	for _, a := range addrs {
